@@ -174,6 +174,7 @@ def run(chk):
     scheds = ["synchronous", "threads", a_schedule(1), a_schedule(2), "synchronous", a_schedule(3)]
     dd.run_driver(nd, drnd, scheds, out)
     dd.run_fft_family(nd // 4, drnd, scheds, out)
+    dd.run_dm_sessions(drnd, out)
     dd.run_binary(nd // 6, drnd, out)
     dd.run_concat(nd // 6, drnd, out)
     dd.run_histories(nd // 4, drnd, out)
@@ -308,6 +309,7 @@ def replay(doc):
         nd = src["n"]
         dd.run_driver(nd, drnd, ["synchronous", "threads"], res)
         dd.run_fft_family(nd // 4, drnd, ["synchronous", "threads"], res)
+        dd.run_dm_sessions(drnd, res)
         dd.run_binary(nd // 6, drnd, res)
         dd.run_concat(nd // 6, drnd, res)
         dd.run_histories(nd // 4, drnd, res)
